@@ -78,6 +78,57 @@ theorem block_bound (blk q : Blk) (hb : ∀ y j, 0 ≤ blk y j ∧ blk y j ≤ 2
     simp only [Go.abs] at hX ⊢
     split <;> omega
 
+/-- 2^26·(Q00/2) + 2^26·0.6935·M + 2^26·0.962·R (×2): the table part of the block bound with the integer weights of the
+    inverse matrix; LinB q / 2^30 ≤ (1/8)·Σ C(u)C(v)·Q[u,v] since 93085696/2^27 ≤ 1/√2 and 129117769/2^27 ≤ 1 -/
+def LinB (q : Blk) : Int := 67108864 * q 0 0 + 93085696 * Mq q + 129117769 * Rq q
+
+/-- the block bound in linear form: |decoded − source| ≤ 1.44 + LinB q / 2^30 (units 2^-58) -/
+theorem block_bound_lin (blk q : Blk) (hb : ∀ y j, 0 ≤ blk y j ∧ blk y j ≤ 255) (hq : ∀ v k, 1 ≤ q v k)
+    (y x : Nat) (hy : y < 8) (hx : x < 8) :
+    -(415051741658464912 + 268435456 * LinB q) ≤ 288230376151711744 * (blockF blk q y x - blk y x) ∧
+    288230376151711744 * (blockF blk q y x - blk y x) ≤ 415051741658464912 + 268435456 * LinB q := by
+  obtain ⟨t, ht1, ht2⟩ := block_int (fun y j => blk y j - 128) q (fun y j => by have := hb y j; constructor <;> omega) hq y x hy hx
+  have hout : blockF blk q y x = Go.uwrap8 (Clamp (t + 128) 0 255) := ht1
+  have hc := clamp_bound t (blk y x) _ (hb y x) ht2
+  rw [← hout] at hc
+  have hS := S_le q hq y x hy hx
+  simp only [LinB]
+  generalize sum8 (fun k => Gabs x k * colQ q y k) = S at hc hS
+  omega
+
+/-- every output of the block pipeline is a byte -/
+theorem blockF_byte (blk q : Blk) (y x : Nat) : 0 ≤ blockF blk q y x ∧ blockF blk q y x ≤ 255 := by
+  obtain ⟨t, ht, _⟩ := (irowF_facts (icolF (quantF (fdctF blk) q) q) y)
+  have h := irowF_facts (icolF (quantF (fdctF blk) q) q) y
+  have key : ∀ i, i < 8 → 0 ≤ irowF (icolF (quantF (fdctF blk) q) q) y i ∧ irowF (icolF (quantF (fdctF blk) q) q) y i ≤ 255 := by
+    intro i hi
+    have hc : i = 0 ∨ i = 1 ∨ i = 2 ∨ i = 3 ∨ i = 4 ∨ i = 5 ∨ i = 6 ∨ i = 7 := by omega
+    rcases hc with rfl | rfl | rfl | rfl | rfl | rfl | rfl | rfl
+    · obtain ⟨t, e, _⟩ := h.1; rw [e]; exact ⟨(clamp_byte _).1, (clamp_byte _).2.1⟩
+    · obtain ⟨t, e, _⟩ := h.2.1; rw [e]; exact ⟨(clamp_byte _).1, (clamp_byte _).2.1⟩
+    · obtain ⟨t, e, _⟩ := h.2.2.1; rw [e]; exact ⟨(clamp_byte _).1, (clamp_byte _).2.1⟩
+    · obtain ⟨t, e, _⟩ := h.2.2.2.1; rw [e]; exact ⟨(clamp_byte _).1, (clamp_byte _).2.1⟩
+    · obtain ⟨t, e, _⟩ := h.2.2.2.2.1; rw [e]; exact ⟨(clamp_byte _).1, (clamp_byte _).2.1⟩
+    · obtain ⟨t, e, _⟩ := h.2.2.2.2.2.1; rw [e]; exact ⟨(clamp_byte _).1, (clamp_byte _).2.1⟩
+    · obtain ⟨t, e, _⟩ := h.2.2.2.2.2.2.1; rw [e]; exact ⟨(clamp_byte _).1, (clamp_byte _).2.1⟩
+    · obtain ⟨t, e, _⟩ := h.2.2.2.2.2.2.2; rw [e]; exact ⟨(clamp_byte _).1, (clamp_byte _).2.1⟩
+  -- irowF … y x = sel8 … (invPos x), and invPos x < 8
+  show 0 ≤ irowF (icolF (quantF (fdctF blk) q) q) y x ∧ irowF (icolF (quantF (fdctF blk) q) q) y x ≤ 255
+  have hp : ∃ i, i < 8 ∧ irowF (icolF (quantF (fdctF blk) q) q) y x = irowF (icolF (quantF (fdctF blk) q) q) y i := by
+    have hx : invPos x = 0 ∨ invPos x = 1 ∨ invPos x = 2 ∨ invPos x = 3 ∨ invPos x = 4 ∨ invPos x = 5 ∨ invPos x = 6 ∨ invPos x = 7 := by
+      unfold invPos; split <;> simp
+    rcases hx with h0 | h0 | h0 | h0 | h0 | h0 | h0 | h0
+    · exact ⟨0, by omega, by simp only [irowF, h0]; rfl⟩
+    · exact ⟨7, by omega, by simp only [irowF, h0]; rfl⟩
+    · exact ⟨1, by omega, by simp only [irowF, h0]; rfl⟩
+    · exact ⟨6, by omega, by simp only [irowF, h0]; rfl⟩
+    · exact ⟨2, by omega, by simp only [irowF, h0]; rfl⟩
+    · exact ⟨5, by omega, by simp only [irowF, h0]; rfl⟩
+    · exact ⟨3, by omega, by simp only [irowF, h0]; rfl⟩
+    · exact ⟨4, by omega, by simp only [irowF, h0]; rfl⟩
+  obtain ⟨i, hi, e⟩ := hp
+  rw [e]; exact key i hi
+
 /-- IMAGE LIFT: edge replication is the identity inside the image, so every pixel of every w×h greyscale image is within
     the bound of its source sample -/
 theorem image_bound (img q : Blk) (w h : Nat) (hb : ∀ y j, 0 ≤ img y j ∧ img y j ≤ 255) (hq : ∀ v k, 1 ≤ q v k)
